@@ -521,3 +521,32 @@ func funcParams(info *types.Info, fd *ast.FuncDecl) []*types.Var {
 	}
 	return out
 }
+
+
+// flattenBlock flattens a statement list (e.g. a loop body) over the given decision variables; a path that runs off the
+// end of the list is a leaf without a return.
+func flattenBlock(info *types.Info, list []ast.Stmt, params []*types.Var) ([]leaf, token.Pos, error) {
+	f := &flattener{info: info, params: map[*types.Var]bool{}}
+	cons := pathCons{}
+	for _, p := range params {
+		f.params[p] = true
+		if b, ok := p.Type().Underlying().(*types.Basic); ok && b.Info()&types.IsString != 0 {
+			cons[p] = fullStr()
+		} else {
+			cons[p] = fullInt()
+		}
+	}
+	f.seq(list, cons, nil, func(c pathCons, st []ast.Stmt) {
+		f.leaves = append(f.leaves, leaf{cons: c, stmts: append([]ast.Stmt(nil), st...)})
+	})
+	return f.leaves, f.errPos, f.err
+}
+
+func (d dset) hasInt(v int64) bool {
+	for _, x := range d.ints {
+		if x.lo <= v && v <= x.hi {
+			return true
+		}
+	}
+	return false
+}
